@@ -611,6 +611,40 @@ fn f_c06_reuse(closed_by_peer: bool) {
     core::mem::forget(st);
     forget_ep(ep);
 }
+/// The peer aborts a stream (Reset) and opens a new one under the same id while the local
+/// application still holds the handle of the old one; then the old handle is dropped.  The
+/// stale drop notification must not touch the new stream.
+fn f_c06_stale_drop_after_reuse() {
+    let mut ep = endpoint(small_options(), KRng::fixed([1, 2, 3, 4]));
+    let st_old = install_established(&ep, ID_A, kani::any());
+    ep.task.close_flow(ID_A, true); // what a peer Reset does
+    vassert!(pop_out(&mut ep.tx_msg_rx) == Out::Nothing, "P:C10 a Reset was answered");
+    let rw: u32 = kani::any();
+    let r = now_or_never(ep.task.con_recv_new_stream(ID_A, Bytes::new(), kani::any(), rw));
+    vassert!(matches!(r, Some(Ok(()))), "P:C06 the released id cannot be re-opened");
+    core::mem::forget(r);
+    vassert!(pop_out(&mut ep.tx_msg_rx) == Out::Frame { op: OpCode::Acknowledge, id: ID_A }, "P:C06 re-opening a released id was not acknowledged");
+    let st_new = match ep.mux.con_recv_stream_rx.lock().try_recv() {
+        Ok(s2) => s2,
+        Err(_) => vfail!("P:C06 the re-opened stream was not delivered to the application"),
+    };
+    // the application lets go of the OLD handle only now
+    core::mem::drop(st_old);
+    {
+        let fut = ep.task.process_dropped_flows_task(&mut ep.dropped_flows_rx);
+        let mut fut = core::mem::ManuallyDrop::new(fut);
+        let p = poll_once(unsafe { Pin::new_unchecked(&mut *fut) });
+        vassert!(p.is_pending(), "P:C08 the dropped-handle task ended although the multiplexor is alive");
+    }
+    let after = snap(&ep, ID_A, Some(&st_new));
+    vassert!(after.present && after.kind == 1, "P:C06 dropping the handle of an old, already aborted stream removed the NEW stream that reuses its id");
+    vassert!(after.read_open && !after.finish_sent && after.credit == rw, "P:C06 dropping the handle of an old stream changed the state of the new stream that reuses its id");
+    vassert!(pop_out(&mut ep.tx_msg_rx) == Out::Nothing, "P:C06 dropping the handle of an old, already aborted stream sent a frame for the new stream");
+    kani::cover!(true, "stale drop evaluated");
+    core::mem::forget(st_new);
+    forget_ep(ep);
+}
+h!(c06_stale_drop_after_reuse, 8, f_c06_stale_drop_after_reuse());
 h!(c06_local_drop, 8, f_c06_local_drop());
 h!(c06_peer_reset_app_view, 8, f_c06_peer_reset_app_view());
 h!(c06_reuse_after_peer_reset, 8, f_c06_reuse(true));
